@@ -18,6 +18,7 @@ func usage() {
 
 func main() {
 	debug.SetGCPercent(600)
+	debug.SetMaxStack(96 << 20) // runaway recursion must die in milliseconds, not after 1 GB
 	if len(os.Args) < 2 {
 		usage()
 	}
